@@ -260,10 +260,12 @@ func (rc *rtCase) encodeConcurrently(n int) ([][]byte, []error) {
 		go func(g int) {
 			defer wg.Done()
 			w := &yieldingWriter{}
+			cfg := rc.Cfg
+			cfg.NoScratch = true // the values are shared by the goroutines: nobody writes to them
 			if rc.Static != nil {
-				errs[g] = rc.Static.Encode(w, rc.Vals, rc.Cfg)
+				errs[g] = rc.Static.Encode(w, rc.Vals, cfg)
 			} else {
-				errs[g] = lib.EncodeTwin(w, rc.T.RT(), rc.Vals, rc.Cfg)
+				errs[g] = lib.EncodeTwin(w, rc.T.RT(), rc.Vals, cfg)
 			}
 			outs[g] = w.buf.Bytes()
 		}(g)
